@@ -1,7 +1,7 @@
 (** Executable entry points of the C17 model for the correspondence driver. *)
 From Coq Require Import List NArith ZArith String Bool.
 From Tongo Require Import Lib.Bits Lib.Res Lib.Sx Model.Address Model.Shard Model.Adnl
-  Model.AddressTlb Generated.Consts.
+  Model.AddressTlb Model.AddressJson Generated.Consts.
 Import ListNotations.
 Local Open Scope string_scope.
 Local Open Scope list_scope.
@@ -201,6 +201,59 @@ Definition run_json (a : sx) : sx :=
 Definition run_unjson (a : sx) : sx :=
   match a with SBytes cs => out_acc (json_unmarshal cs) | _ => sx_err "unjson" end.
 
+Definition run_unjson_quoted (a : sx) : sx :=
+  match a with SBytes cs => out_acc (json_unmarshal (34%N :: cs ++ [34%N])) | _ => sx_err "unjsonq" end.
+
+(** JSON form of the TL-B address *)
+Definition any_sx (a : option (N * N)) : list sx :=
+  match a with Some (d, p) => [SB true; SN d; SN p] | None => [SB false; SN 0; SN 0] end.
+
+Definition ma_sx (m : msgaddr) : sx :=
+  match m with
+  | MANone => SA "none"
+  | MAExtern e => SL [SA "ext"; SBits e]
+  | MAStd any wc addr => SL (SA "std" :: any_sx any ++ [SZ wc; SBytes addr])
+  | MAVar any len wc a => SL (SA "var" :: any_sx any ++ [SN len; SZ wc; SBits a])
+  end.
+
+(* (wc addr) -> json.Marshal(id.ToMsgAddress()) *)
+Definition run_ma_json (a : sx) : sx :=
+  match a with
+  | SL [SZ wc; SBytes addr] => SBytes (account_to_ma_json wc addr)
+  | _ => sx_err "majson"
+  end.
+
+(* (exists depth pfx wc8 addr) -> json.Marshal(MsgAddress{AddrStd}) *)
+Definition run_ma_json_any (a : sx) : sx :=
+  match a with
+  | SL [SB ex; SN d; SN p; SZ wc; SBytes addr] => SBytes (ma_json_print (MAStd (any_of ex d p) wc addr))
+  | _ => sx_err "majsonany"
+  end.
+
+(* bytes -> (MsgAddress.UnmarshalJSON, AccountIDFromTlb of it) *)
+Definition run_ma_unjson (a : sx) : sx :=
+  match a with
+  | SBytes cs =>
+      match ma_json_parse cs with
+      | Ok m => SL [ma_sx m; out_acc_opt (account_from_tlb m)]
+      | Err _ => SA "err"
+      | Panic _ => SA "panic"
+      end
+  | _ => sx_err "maunjson"
+  end.
+
+(* concurrent parsing: (human-or-raw strings, adnl strings, workers, iterations) ->
+   (sequential results, number of concurrent results that differ from them);
+   the parsers are pure functions, so the number is 0 *)
+Definition run_conc (a : sx) : sx :=
+  match a with
+  | SL [SL hs; SL ads; SN _; SN _] =>
+      SL [SL (map (fun h => SL [run_parse_human h; run_parse_account h; run_parse_raw h;
+                               run_parse_address h; run_unjson_quoted h]) hs);
+          SL (map run_parse_adnl ads); SN 0]
+  | _ => sx_err "conc"
+  end.
+
 (* dispatcher of the C17 kinds (same lines go into Harness/Dispatch.v) *)
 Definition run (name : string) (a : sx) : sx :=
   let is x := String.eqb name x in
@@ -228,4 +281,8 @@ Definition run (name : string) (a : sx) : sx :=
   else if is "c17.fromtlb" then run_from_tlb a
   else if is "c17.json" then run_json a
   else if is "c17.unjson" then run_unjson a
+  else if is "c17.majson" then run_ma_json a
+  else if is "c17.majsonany" then run_ma_json_any a
+  else if is "c17.maunjson" then run_ma_unjson a
+  else if is "c17.conc" then run_conc a
   else sx_err "unknown case kind".
